@@ -73,7 +73,7 @@ func c03Configs(thorough bool) []c03cfg {
 		// indexes keyed on the table's own key attributes: every item belongs to them from the moment it exists, also when UpdateItem creates it
 		{name: "GSI-inverted", cfg: drv.TableCfg{Hash: "h", HashT: "S", Range: "r", RangeT: "S", Billing: "PAY_PER_REQUEST", GSI: []drv.IndexCfg{{Name: "gsi", Hash: "r", HashT: "S", Range: "h", RangeT: "S"}}}, keys: hrk, clearOp: true},
 		{name: "GSI-on-range-key", cfg: drv.TableCfg{Hash: "h", HashT: "S", Range: "r", RangeT: "S", Billing: "PAY_PER_REQUEST", GSI: []drv.IndexCfg{{Name: "gsi", Hash: "r", HashT: "S"}, {Name: "gsi2", Hash: "g", HashT: "S"}}}, keys: hrk},
-		{name: "LSI", cfg: drv.TableCfg{Hash: "h", HashT: "S", Range: "r", RangeT: "S", Billing: "PAY_PER_REQUEST", LSI: []drv.IndexCfg{{Name: "lsi", Hash: "h", HashT: "S", Range: "g", RangeT: "S", Local: true}}}, keys: hrk, clearOp: true},
+		{name: "LSI", cfg: drv.TableCfg{Hash: "h", HashT: "S", Range: "r", RangeT: "S", Billing: "PAY_PER_REQUEST", LSI: []drv.IndexCfg{{Name: "lsi", Hash: "h", HashT: "S", Range: "g", RangeT: "S", Local: true}, {Name: "ls2", Hash: "h", HashT: "S", Range: "s", RangeT: "S", Local: true}}}, keys: hrk, clearOp: true},
 	}
 }
 
@@ -105,7 +105,7 @@ func C03(run *ev.Run, tier string) map[string]interface{} {
 	})
 	cov := total.Coverage()
 	cov["per_system"] = per
-	cov["alphabet"] = "Put (without index key / g=x / g=y / with range values), Upd SET g, REMOVE g, SET s, REMOVE s, Del, ClearTable, UpdateTable create/delete second GSI on an attribute items already have; configurations: GSI hash-only, GSI hash+range, GSI inverted (range key, hash key), GSI on the table range key next to a GSI on g, LSI; both SDK adapters"
+	cov["alphabet"] = "Put (without index key / g=x / g=y / with range values), Upd SET g, REMOVE g, SET s, REMOVE s, Del, ClearTable, UpdateTable create/delete second GSI on an attribute items already have; configurations: GSI hash-only, GSI hash+range, GSI inverted (range key, hash key), GSI on the table range key next to a GSI on g, two LSIs (on g and on s); both SDK adapters"
 	cov["oracle"] = "after every transition: Scan(index) and Query(index, each key value, both directions) = base items possessing all index key attributes, with current values; DescribeTable per-index ItemCount = their number; plus the full base-table observation"
 	return cov
 }
